@@ -340,24 +340,31 @@ def strip_comments(src):
 
 def find_fn(src, impl_header, fn_name, nth=0):
     """locate `fn fn_name` inside the impl block that starts with impl_header; returns (params, body)"""
-    hi = -1
-    for _ in range(nth + 1):
-        hi = src.find(impl_header, hi + 1)
-        if hi < 0:
-            raise Untranslatable(f"impl header not found: {impl_header!r}")
-    # extent of the impl block
-    b = src.index('{', hi)
-    d = 0
-    e = b
-    while True:
-        if src[e] == '{':
-            d += 1
-        if src[e] == '}':
-            d -= 1
-            if d == 0:
-                break
-        e += 1
-    blk = src[b:e + 1]
+    if impl_header == '':
+        # free function: the first `fn name` at column 0 (`pub fn` / `fn`)
+        m0 = re.compile(r'^(?:pub(?:\([a-z]+\))?\s+)?fn\s+' + re.escape(fn_name) + r'\b', re.M).search(src)
+        if not m0:
+            raise Untranslatable(f"free fn {fn_name} not found")
+        blk = src[m0.start():]
+    else:
+        hi = -1
+        for _ in range(nth + 1):
+            hi = src.find(impl_header, hi + 1)
+            if hi < 0:
+                raise Untranslatable(f"impl header not found: {impl_header!r}")
+        # extent of the impl block
+        b = src.index('{', hi)
+        d = 0
+        e = b
+        while True:
+            if src[e] == '{':
+                d += 1
+            if src[e] == '}':
+                d -= 1
+                if d == 0:
+                    break
+            e += 1
+        blk = src[b:e + 1]
     m = re.compile(r'\bfn\s+' + re.escape(fn_name) + r'\s*(<(?:[^<>]|<[^<>]*>)*>)?\s*\(').search(blk)
     if not m:
         raise Untranslatable(f"fn {fn_name} not found in {impl_header!r}")
